@@ -27,7 +27,9 @@ RULE += (
     "factory, asked for with equal arguments while the other is in flight: 7 decorators x function / method of "
     "instances that compare equal / staticmethod x 4 conventions) and short-lived instances (60 instances per "
     "decorator come and go - a later one may live where an earlier one did - calling their method with the "
-    "same arguments through 5 conventions)."
+    "same arguments through 5 conventions). The short-lived-instances unit also puts two or three calls in "
+    "flight together on a fresh instance (same / different arguments; all, the first or the last body "
+    "failing): every call ends with its own body's outcome."
 )
 ASSUMPTIONS = ["bodies are deterministic, so cached wrappers (alru_cache, acached_per_instance, deduplicate) return the twin's value on every call"]
 UNIT_TIMEOUT = {"quick": 200, "thorough": 1200}
